@@ -29,7 +29,7 @@ class Connection:
 
 
 ch = l2cap.LeCreditBasedChannel(
-    manager=Manager(), connection=Connection(), le_psm=0x80, source_cid=0x40, destination_cid=0x41, mtu=64, mps=64, credits=10,
+    manager=Manager(), connection=Connection(), psm=0x80, source_cid=0x40, destination_cid=0x41, mtu=64, mps=64, credits=10,
     peer_mtu=64, peer_mps=64, peer_credits=10, connected=True,
 )
 got = []
